@@ -32,6 +32,7 @@ struct Container {
    std::string kind;
    impl::Enum* en = nullptr; impl::Mapping* map = nullptr; impl::Class* cls = nullptr; impl::Block* blk = nullptr;
    impl::Expr_list* xl = nullptr; impl::Namespace* ns = nullptr; impl::Module* mod = nullptr;
+   impl::Namespace* tmpl = nullptr;      // a namespace that receives template declarations: specializations BEFORE their primaries, redeclarations
    std::size_t added = 0;
 };
 
@@ -143,6 +144,7 @@ static int history(Pools& w)
             else if (kind == "block") { c.blk = w.lex.make_block(*w.greg); note(*c.blk, "C-block", id, true); }
             else if (kind == "xlist") { c.xl = w.lex.make_expr_list(); note(*c.xl, "C-xlist", id, true); }
             else if (kind == "namespace") { c.ns = w.lex.make_namespace(*w.greg); note(*c.ns, "C-namespace", id, true); }
+            else if (kind == "templates") { c.tmpl = w.lex.make_namespace(*w.greg); note(*c.tmpl, "C-templates", id, true); }
             else if (kind == "module") { modules.push_back(std::make_unique<impl::Module>(w.lex)); c.mod = modules.back().get(); }
             else throw std::runtime_error("bad container kind");
             cs.push_back(c);
@@ -163,6 +165,17 @@ static int history(Pools& w)
                else { c.blk->add_stmt(*w.exprs[c.added % 12]); }
             }
             else if (c.xl) c.xl->push_back(w.exprs[c.added % 12]);
+            else if (c.tmpl) {
+               // in rounds of four: a specialization of (n, F) before any primary; then the primary of the same (n, F); then a primary of
+               // another name; then a specialization of that one
+               std::size_t round = c.added / 4, step = c.added % 4;
+               auto& n1 = *w.ids[(2 * round) % 12]; auto& n2 = *w.ids[(2 * round + 1) % 12];
+               auto& fa = w.lex.get_forall(*w.prods[round % 6], *w.types[(round * 5) % 12]);
+               if (step == 0) note(*c.tmpl->body.declare_secondary_template(n1, fa), "M-specialization-first", id, true);
+               else if (step == 1) note(*c.tmpl->body.declare_primary_template(n1, fa), "M-primary-after-specialization", id, true);
+               else if (step == 2) note(*c.tmpl->body.declare_primary_template(n2, fa), "M-primary", id, true);
+               else note(*c.tmpl->body.declare_secondary_template(n2, fa), "M-specialization", id, true);
+            }
             else if (c.ns) note(*c.ns->body.declare_var(name, ty), "M-var", id, true);
             else if (c.mod) { auto* u = c.mod->make_unit(); note(u->global_namespace(), "M-unit.global_namespace", id, true); }
             ++c.added; ++members;
@@ -217,6 +230,7 @@ static int history(Pools& w)
       else if (c.cls) seen = c.cls->bases().size() + c.cls->members().size();
       else if (c.blk) seen = c.blk->handlers().size() + c.blk->body().size();
       else if (c.xl) seen = c.xl->size();
+      else if (c.tmpl) seen = c.tmpl->members().size();
       else if (c.ns) seen = c.ns->members().size();
       else if (c.mod) seen = c.mod->implementation_units().size();
       std::printf("CONT %zu %s added=%zu holds=%zu\n", i, c.kind.c_str(), c.added, seen);
@@ -257,6 +271,29 @@ int main(int argc, char** argv)
             auto& without = w.lex.get_function(p, t, e);
             std::printf("F N:transfer args=%s;%s;%s :: same=%d transfer=%s source=%s target=%s throws=%s\n", show(p).c_str(), show(t).c_str(), show(e).c_str(),
                         int(&with == &without), show(with.transfer()).c_str(), show(with.source()).c_str(), show(with.target()).c_str(), show(with.throws()).c_str());
+         }
+         else if (key == "N:levels") {
+            // nesting levels at every width boundary: a parameter list and its parameters report the level they were created with
+            const std::size_t levels[] = { 1, 2, 255, 256, 65535, 65536, 65537, std::size_t(1) << 31, (std::size_t(1) << 32) - 1, std::size_t(1) << 32,
+                                           (std::size_t(1) << 32) + 3, std::size_t(1) << 48, ~std::size_t(0) - 1, ~std::size_t(0) };
+            long bad = 0; std::size_t first_bad = 0;
+            for (auto lv : levels) {
+               auto* m = w.lex.make_mapping(*w.greg, Mapping_level{ lv });
+               auto* p0 = m->param(*w.ids[0], *w.types[0]);
+               auto* lam = w.lex.make_lambda(*w.greg, Mapping_level{ lv });
+               if (std::size_t(m->parameters().level()) != lv or std::size_t(p0->level()) != lv or std::size_t(lam->parameters().level()) != lv) { if (not bad) first_bad = lv; ++bad; }
+            }
+            std::printf("F N:levels args=- :: levels=%zu bad=%ld first_bad=%zu\n", sizeof levels / sizeof levels[0], bad, first_bad);
+         }
+         else if (key == "N:vendor" and ix.size() == 4) {
+            // the natural transfer is the ONLY one that is not recorded: the C++ linkage with a vendor calling convention is another transfer
+            auto& p = *w.prods[U(ix[0], 6)]; auto& t = *w.types[U(ix[1], 12)]; auto& e = *w.exprs[U(ix[2], 12)]; auto& cc = *w.ccs[U(ix[3], 6)];
+            auto& vendor = w.lex.get_transfer(w.lex.cxx_linkage(), cc);
+            auto& with = w.lex.get_function(p, t, e, vendor);
+            auto& without = w.lex.get_function(p, t, e);
+            auto& as = w.lex.get_as_type(e, vendor);
+            std::printf("F N:vendor args=%s;%s;%s;%s :: distinct=%d convention=%s linkage=%s as_type.convention=%s\n", show(p).c_str(), show(t).c_str(), show(e).c_str(), show(cc).c_str(),
+                        int(&with != &without), show(with.transfer().convention()).c_str(), show(with.transfer().linkage()).c_str(), show(as.transfer().convention()).c_str());
          }
          else if (key == "N:reserved" and ix.size() == 2) {
             // factories given a name that is a RESERVED word (the identifier is a process-wide constant): the node still reports the
